@@ -19,6 +19,7 @@ RULE = ("one run = a simulated bus of 2-12 terminals, some with pre-assigned sta
         "registers; distinct = distinct event-log digests; non-trivial = the master wrote "
         "at least two station addresses")
 RULE += '; since the 4th session also station aliases in register 0x12, one Terminal object initialised for several positions, and a power cycle followed by a new master object with the kept Terminal objects'
+RULE += '; also a range used up but for three addresses followed by two initialisations at once with 90-99 % colliding draws; a run that ends with an AssertionError of the library about an address is rule assigned-address-refused'
 COMPONENTS = {
     "real": ["ebpfcat.ethercat.EtherCat.find_free_address/assigned_address/"
              "scan_serial_numbers/eeprom_read/count", "Terminal.initialize/read_eeprom",
